@@ -14,7 +14,8 @@ RULE = ("Hypothesis-generated finite ancilla environments (dimension 1..3, gener
         "constant or step dependent, optional ancilla dephasing/damping channel, mixed ancilla states) turned into "
         "hand-built process tensors (rank-4, rank-3 delta, Liouville-rotated rank-4 with transforms, Hilbert-rotated "
         "rank-3 with transforms), 0..3 environments, systems d=2..3 (constant / time dependent, Lindblad terms), "
-        "control schedules, every permutation of the tensor list; oracle = explicit joint density-matrix evolution "
+        "control schedules, every permutation of the tensor list, tensors of different lengths in one list (the "
+        "computation covers the shortest), num_steps prefixes, record_all=False; oracle = explicit joint density-matrix evolution "
         "(R-anc) at every step, tolerance 1e-10. Sum rule / order independence for PT-TEMPO tensors within the "
         "truncation tolerance. Non-trivial: at least one environment whose joint unitary is entangling and N >= 2 "
         "(memory across steps), or two or more environments; distinct = distinct canonical JSON of the case.")
@@ -44,7 +45,9 @@ def s_case(draw, tier):
             "sys": draw(sysgen.sys_spec(d)), "rho0": draw(gens.dm_spec(d)),
             "envs": envs, "controls": controls,
             "trivial_pt": draw(st.booleans()), "pass_dt": draw(st.booleans()),
-            "prefix": draw(st.one_of(st.none(), st.integers(1, N)))}
+            "prefix": draw(st.one_of(st.none(), st.integers(1, N))),
+            # process tensors of different lengths in one list: the computation covers the shortest (N steps)
+            "longer": [0] + [draw(st.sampled_from([0, 0, 1, 2])) for _ in range(max(0, nenv - 1))] if nenv else []}
 
 
 def _controls(case, d):
@@ -69,8 +72,11 @@ def run_case(case):
     d, N, dt, t0 = case["d"], case["N"], case["dt"], case["t0"]
     system = sysgen.build_system(case["sys"])
     rho0 = gens.build_dm(case["rho0"])
-    envs = [ancgen.build_env(s, d, N, dt=dt if (i == 0 or case["pass_dt"]) else None)
+    longer = case.get("longer") or [0] * len(case["envs"])
+    envs = [ancgen.build_env(s, d, N + longer[i], dt=dt if (i == 0 or case["pass_dt"]) else None)
             for i, s in enumerate(case["envs"])]
+    if any(longer):
+        out.label("different-lengths")
     ctl, ref_ctl = _controls(case, d)
     props = sysgen.ref_props(case["sys"], dt, t0)
     n = len(envs)
@@ -81,11 +87,11 @@ def run_case(case):
     if case["controls"]:
         out.label("controls")
     # caps of trace-preserving hand-built tensors equal vec(1_E) (untransformed ones)
-    for e, s in zip(envs, case["envs"]):
+    for e, s, extra in zip(envs, case["envs"], longer):
         if s["store"] in ("rank4", "rank3"):
-            for k in range(N + 1):
+            for k in range(N + extra + 1):
                 cap = e["pt"].get_cap_tensor(k)
-                want = np.eye(e["e"]).reshape(-1) if 0 < k < N else np.ones(1)
+                want = np.eye(e["e"]).reshape(-1) if 0 < k < N + extra else np.ones(1)
                 out.check_close("caps", cap, want, TOL, f"cap {k}")
     kw = dict(start_time=t0, control=ctl, subdiv_limit=sysgen.subdiv_limit(case["sys"]),
               progress_type="silent")
